@@ -111,6 +111,7 @@ def run(c):
                 c.nontriv("contested:%s:%d" % (tag, o["set"]))
             if o.get("loads") and o.get("engine"):
                 c.nontriv("load-history:" + "|".join(o["loads"]) + ":bundles=%d" % sum(o.get("parts") or []))
+                c.nontriv("load-via:" + "|".join(o.get("via") or []))
             if o.get("last_lean"):
                 c.coverage["histories_whose_last_load_adds_no_syntax_rule"] = c.coverage.get("histories_whose_last_load_adds_no_syntax_rule", 0) + 1
             if sum(o.get("parts") or []):
@@ -119,7 +120,7 @@ def run(c):
                 c.fail("oracle", "Engine.Run reports differ from ast.Inspect x MatchNode, first accepting rule wins: " + o["mismatch"],
                        input={"rules_files": o.get("files"), "load_order": o.get("order"), "target": o.get("src"), "seed": seed, "set": o["set"],
                               "group_filter": "groups named *_off are disabled", "bundles": "harness/fake/wb1..wb4 (imported with the prefix shown in the file)",
-                              "load_history": o.get("loads")},
+                              "load_history": o.get("loads"), "loaded_via": o.get("via")},
                        expected=[(r["r"], r["p"], r["e"]) for r in (o.get("oracle") or [])][:40],
                        observed=[(r["r"], r["p"], r["e"]) for r in (o.get("engine") or [])][:40])
             elif len(c.samples) < 4 and o.get("engine"):
